@@ -99,6 +99,7 @@ def main(repo, out):
                 '.map(|[mask,vel,accel]|AcceleratingByteMask{mask,vel,accel})'):
         if txt not in sb: note('unrecognised string_from_attrs size/mask construction: ' + txt[:40])
     bs_checked = bool(re.search(r'ifbs\.value==0\{returnErr\(', sb))
+    nf_rejected = 'iflet(StringArgSize::Fixed{nulless:true,..},Some(furibug_span))=(size,furibug){returnErr(' in sb
     # ---- raw.rs
     m = re.search(r'pub\s+type\s+ParamMask\s*=\s*(\w+)\s*;', raw); mask_ty = m.group(1) if m else None
     m = re.search(r'pub\s+type\s+ExtraArg\s*=\s*(\w+)\s*;', raw); extra_ty = m.group(1) if m else None
@@ -383,7 +384,7 @@ def main(repo, out):
     t += '  cd_imm_str := %s; cd_imm_off := %s; cd_imm_time := %s; cd_imm_pad := %s; cd_imm_int := %s; cd_imm_float := %s;\n' % tuple(b(imm[k]) for k in ('str', 'off', 'time', 'pad', 'int', 'float'))
     t += '  cd_nul_block := %s; cd_nul_pascal := %s; cd_nul_fixed := %s; cd_nul_nulless := %s;\n' % tuple(b(nul[k]) for k in ('block', 'pascal', 'fixed', 'nulless'))
     t += '  cd_pascal_prefix := 4%nat;\n'
-    t += '  cd_bs_checked := %s;\n  cd_place_with_padding := %s;\n  cd_match_skips_padding := %s\n|}.\n' % (b(bs_checked), b(place_with_padding), b(skips))
+    t += '  cd_bs_checked := %s;\n  cd_nulless_furibug_rejected := %s;\n  cd_place_with_padding := %s;\n  cd_match_skips_padding := %s\n|}.\n' % (b(bs_checked), b(nf_rejected), b(place_with_padding), b(skips))
     t += 'Definition gen_unrecognised : nat := %d%%nat.\n' % len(NOTES)
     t += '(* translator notes:\n' + ''.join('   %s\n' % n.replace('*)', '* )').replace('(*', '( *') for n in NOTES) + '*)\n'
     write_if_changed(out, t)
